@@ -125,10 +125,10 @@ def run(ctx):
     ctx.proof_violation_if_broken(pr, "c19 search: %d histories, no failing input" % ctx.notes.get("search_evaluations", 0))
     ctx.cov["rule"] = ("corr: exhaustive small scopes + %d in-scope + %d out-of-scope random histories executed on the real API, "
                        "state projection (outcomes, moov child order, next id, trex ids, per trak: tkhd id/volume/dims, mdhd timescale/"
-                       "language, hdlr type/name, elng, mdia child order, media header, every sample entry with its configuration) "
+                       "language, hdlr type/name, elng, mdia child order, media header, every sample entry with its configuration, the trak's box-tree shape) "
                        "compared with the extracted model; distinct = distinct case lines. search: independent oracle on in-scope "
-                       "histories: ids/trex/next id/contiguity, handler+media header table, language rule, data reference index, "
-                       "descriptor contents vs supplied (known dimensions, SPS bytes, ASC decoded back), encode -> DecodeFile -> equal "
+                       "histories: ids/trex/next id/contiguity, handler+media header table, language rule, data reference index, trak tree shape, "
+                       "descriptor contents vs supplied (known dimensions, SPS bytes, ASC decoded back), Encode = EncodeSW, encode -> DecodeFile / DecodeFileSR -> equal "
                        "Info dump + equal re-encoding + IsFragmented, single-track and multi-track fragments with samples decoded "
                        "against the init and read back through the trex" % (n, n))
 
